@@ -224,7 +224,9 @@ func runCase(env *vlib.Env, idx int, rep *vlib.Reporter) {
 			// first in the block, with a lower log index than the block's genuine registrations: they
 			// are skipped, and nothing that follows them is
 			jr := vlib.NewRng(env.Seed, 1618, uint64(idx), uint64(b))
-			if len(plans[b].regs) > 0 || jr.Intn(4) == 0 {
+			// (only in half of the blocks that carry genuine registrations, and often already expired:
+			// an unusable registration must not be what makes the syncer split a range there)
+			if (len(plans[b].regs) > 0 && jr.Intn(2) == 0) || (len(plans[b].regs) == 0 && jr.Intn(4) == 0) {
 				for j := jr.Intn(3); j >= 0; j-- {
 					var def []byte
 					switch jr.Intn(6) {
@@ -243,7 +245,7 @@ func runCase(env *vlib.Env, idx int, rep *vlib.Reporter) {
 					}
 					var pfx [32]byte
 					copy(pfx[:], jr.Bytes(32))
-					regs = append(regs, ethfake.EventTriggerRegisteredLog(registryAddr, 1, pfx, common.BytesToAddress(jr.Bytes(20)), def, uint64(b)+5))
+					regs = append(regs, ethfake.EventTriggerRegisteredLog(registryAddr, 1, pfx, common.BytesToAddress(jr.Bytes(20)), def, uint64(b)+[]uint64{0, 0, 5}[jr.Intn(3)]))
 					junkRegs++
 				}
 			}
